@@ -78,6 +78,23 @@ def rule_params(repo: Repo, rep: Report, cname: str, param: str) -> int:
     return 2
 
 
+
+def early_returns(rep: Report, fi: FuncInfo, guards) -> int:
+    """No return between the conversion to the internal {0,1} form and the conversion back."""
+    lo, hi = guards[0].lineno, guards[1].lineno
+    n = 0
+    for r in ast.walk(fi.node):
+        if isinstance(r, ast.Return) and lo < r.lineno < hi:
+            n += 1
+            if r.value is not None and isinstance(r.value, ast.Name) and r.value.id == "x":
+                rep.ok("BIPOLAR", fi, r, "the unconverted input is returned as is", node=r, nontrivial=False)
+            else:
+                rep.violation("BIPOLAR", fi, r, "a return between the conversion to the internal {0,1} form and the conversion back: for bipolar (-1/+1) inputs the result is delivered in the internal alphabet (0 instead of -1), outside the input's alphabet", node=r)
+    if n == 0:
+        rep.ok("BIPOLAR", fi, "no return between the two conversions", "every path delivers the output in the input's alphabet", nontrivial=False)
+    return 1
+
+
 def rule_bipolar(rep: Report, fi: FuncInfo) -> int:
     """(x+1)/2 before, 2*y-1 after, both under the flag (x == -1).any()."""
     n = 0
@@ -92,6 +109,7 @@ def rule_bipolar(rep: Report, fi: FuncInfo) -> int:
     if len(guards) != 2:
         rep.violation("BIPOLAR", fi, f"{len(guards)} blocks guarded by neg_one_format", "the conversion to {0,1} and the conversion back must both be present, under the same flag")
         return n + 1
+    n += early_returns(rep, fi, guards)
     to_bin = [x for x in guards[0].body if isinstance(x, ast.Assign)]
     back = [x for x in guards[1].body if isinstance(x, ast.Assign)]
     if len(to_bin) == 1 and len(back) == 1:
@@ -279,6 +297,7 @@ def rule_bipolar_z(rep: Report, fi: FuncInfo) -> int:
     if len(guards) != 2:
         rep.violation("BIPOLAR", fi, f"{len(guards)} blocks guarded by neg_one_format", "conversion to {0,1} and back must both be present under the same flag")
         return n + 1
+    n += early_returns(rep, fi, guards)
     tb = [x for x in guards[0].body if isinstance(x, ast.Assign)]
     eb = [x for x in guards[0].orelse if isinstance(x, ast.Assign)]
     if len(tb) == 1:
